@@ -41,8 +41,8 @@ def solve_one(job):
     # small portfolio: E-matching is sensitive to relevancy filtering (see DESIGN 3.4); stop at the first definite answer
     quantified = '(forall' in smt2 or '(exists' in smt2
     if quantified:
-        configs = [{'smt.relevancy': 0}, {}, {'smt.relevancy': 0, 'smt.random_seed': 11}]
-        budget = [0.6, 0.2, 0.2]
+        configs = [{'smt.relevancy': 0}, {}, {'smt.mbqi': True}, {'smt.relevancy': 0, 'smt.random_seed': 11}]
+        budget = [0.5, 0.15, 0.2, 0.15]
     else:
         configs = [{}]
         budget = [1.0]
